@@ -370,6 +370,58 @@ impl<'x> GenComp<'x> {
                     // canon lower of a function with a simple type
                     let simple_funcs: Vec<u32> = (0..l.funcs.len() as u32).filter(|i| matches!(l.types.get(l.funcs[*i as usize] as usize), Some(Ty::Func { simple: true, .. }))).collect();
                     if simple_funcs.is_empty() {
+                        // nothing to lower: a canonical built-in instead (async / resource /
+                        // stream / future intrinsics).  Which one is a function of the position,
+                        // not a tape read, so older tapes keep their other decisions.
+                        let k = (l.core_funcs.len() * 7 + l.types.len() * 3 + l.funcs.len() + depth) % 28;
+                        let mut s = we::CanonicalFunctionSection::new();
+                        if k >= 14 {
+                            // these need a stream / future / resource type: declare it right here
+                            let mut ts = we::ComponentTypeSection::new();
+                            match k {
+                                14..=18 => ts.defined_type().stream(Some(CV::Primitive(PV::U8))),
+                                19..=23 => ts.defined_type().future(if k % 2 == 0 { None } else { Some(CV::Primitive(PV::String)) }),
+                                _ => {
+                                    ts.resource(we::ValType::I32, None);
+                                }
+                            };
+                            c.section(&ts);
+                            l.types.push(Ty::Other);
+                        }
+                        let ty = (l.types.len() as u32).saturating_sub(1);
+                        match k {
+                            0 => s.waitable_set_new(),
+                            1 => s.waitable_set_drop(),
+                            2 => s.waitable_join(),
+                            3 => s.subtask_drop(),
+                            4 => s.subtask_cancel(false),
+                            5 => s.subtask_cancel(true),
+                            6 => s.yield_(false),
+                            7 => s.yield_(true),
+                            8 => s.task_cancel(),
+                            9 => s.context_get(0),
+                            10 => s.context_set(0),
+                            11 => s.backpressure_set(),
+                            12 => s.error_context_drop(),
+                            13 => s.thread_available_parallelism(),
+                            14 => s.stream_new(ty),
+                            15 => s.stream_drop_readable(ty),
+                            16 => s.stream_drop_writable(ty),
+                            17 => s.stream_cancel_read(ty, false),
+                            18 => s.stream_cancel_write(ty, true),
+                            19 => s.future_new(ty),
+                            20 => s.future_drop_readable(ty),
+                            21 => s.future_drop_writable(ty),
+                            22 => s.future_cancel_read(ty, true),
+                            23 => s.future_cancel_write(ty, false),
+                            24 => s.resource_new(ty),
+                            25 => s.resource_drop(ty),
+                            26 => s.resource_rep(ty),
+                            _ => s.resource_drop_async(ty),
+                        };
+                        c.section(&s);
+                        l.core_funcs.push(2);
+                        self.classes.push("canon_builtin");
                         continue;
                     }
                     let mut s = we::CanonicalFunctionSection::new();
